@@ -391,6 +391,17 @@ def dating_case(draw, tier, methods=METHODS, want=None, set_metadata=(None, True
     kw["return_fit"] = True
     via = draw(st.sampled_from(["date", "named"]))
     if draw(st.integers(0, 3)) == 0:
+        # min_branch_length comparable to the spacing of the dated node ages (a drawn fraction of
+        # the median age of a pilot run): the constraint then fires on many edges at once, including
+        # edges next to internal samples, instead of only on ties
+        frac = draw(st.sampled_from([0.03, 0.1, 0.3, 1.0]))
+        status, res = run_dating(dict(ts=ts, method=method, via="date", kw=dict(kw)))
+        if status == "ok":
+            t = res[0].nodes_time
+            if np.any(t > 0):
+                kw["min_branch_length"] = float(frac * np.median(t[t > 0]))
+                cls = list(cls) + ["eps_relative_to_ages"]
+    if draw(st.integers(0, 3)) == 0:
         # node flags other than the sample bit are user data (tsinfer marks historical samples with
         # 1<<20, tsdate's own preprocessing with 1<<21): set some on samples and non-samples alike
         picks = draw(st.lists(st.integers(0, 10 ** 6), min_size=1, max_size=6))
